@@ -102,7 +102,7 @@ def py_repr(ty, val):
         return str(Decimal(int(val['int'])) / 10**6)
     if p == 'string':
         return f"'{val['string']}'"
-    if p in ('chain_id', 'key_hash', 'key'):
+    if p in ('chain_id', 'key_hash', 'key', 'signature'):
         return f"'{val['string']}'"
     if p == 'bytes':
         return '0x' + val['bytes']
@@ -136,7 +136,7 @@ def truthy(ty, val):
     p = ty[0]
     if p == 'bool':
         return val['prim'] == 'True'
-    if p in ('string', 'address', 'chain_id', 'key_hash', 'key'):
+    if p in ('string', 'address', 'chain_id', 'key_hash', 'key', 'signature'):
         return len(val['string']) > 0
     if p == 'bytes':
         return len(val['bytes']) > 0
